@@ -186,6 +186,8 @@ class simplify_chained_calls(FuncADLNodeTransformer):
         source = args[0]
         func_f = args[1]
         assert isinstance(func_f, ast.Lambda)
+        # g moves inside f: f's argument must not hide a name g refers to
+        func_f = make_args_unique(func_f)
         func_g = selection
 
         lambda_select = lambda_body_replace(
@@ -259,6 +261,8 @@ class simplify_chained_calls(FuncADLNodeTransformer):
         seq = args[0]
         func_f = args[1]
         assert isinstance(func_f, ast.Lambda)
+        # g moves inside f: f's argument must not hide a name g refers to
+        func_f = make_args_unique(func_f)
         func_g = selection
 
         captured_arg = func_f.args.args[0].arg
@@ -353,6 +357,8 @@ class simplify_chained_calls(FuncADLNodeTransformer):
         seq = args[0]
         func_f = args[1]
         assert isinstance(func_f, ast.Lambda)
+        # g moves inside f: f's argument must not hide a name g refers to
+        func_f = make_args_unique(func_f)
 
         func_g = filter
         lambda_where = lambda_body_replace(
